@@ -6,7 +6,7 @@
 set -eu
 patch="$(readlink -f "$1")"; shift; [ "$1" = "--" ] && shift
 REPO="${VERIF_REPO:-/repo}"
-tmp="$(mktemp -d /verif/out/mutant.XXXXXX)"
+VERIF_DIR="${VERIF_DIR:-/verif}"; mkdir -p "$VERIF_DIR/out"; tmp="$(mktemp -d "$VERIF_DIR/out/mutant.XXXXXX")"
 trap 'rm -rf "$tmp"' EXIT
 files=$(grep -E '^\+\+\+ b/' "$patch" | sed 's#^+++ b/##')
 python3 - "$tmp" "$REPO" $files <<'PY'
